@@ -118,7 +118,7 @@ func (h *Hub) RegisterRemoteSKI(ski string) {
 	// locally initiated
 	service.ConnectionStateDetail().SetState(api.ConnectionStateQueued)
 
-	h.hubReader.ServicePairingDetailUpdate(ski, service.ConnectionStateDetail())
+	h.reportPairingDetailUpdate(ski, service.ConnectionStateDetail())
 
 	h.mdns.RequestMdnsEntries()
 }
@@ -132,7 +132,7 @@ func (h *Hub) UnregisterRemoteSKI(ski string) {
 
 	service.ConnectionStateDetail().SetState(api.ConnectionStateNone)
 
-	h.hubReader.ServicePairingDetailUpdate(ski, service.ConnectionStateDetail())
+	h.reportPairingDetailUpdate(ski, service.ConnectionStateDetail())
 
 	if existingC := h.connectionForSKI(ski); existingC != nil {
 		existingC.CloseConnection(true, 4500, "User close")
@@ -162,5 +162,5 @@ func (h *Hub) CancelPairingWithSKI(ski string) {
 	service.ConnectionStateDetail().SetState(api.ConnectionStateNone)
 	service.SetTrusted(false)
 
-	h.hubReader.ServicePairingDetailUpdate(ski, service.ConnectionStateDetail())
+	h.reportPairingDetailUpdate(ski, service.ConnectionStateDetail())
 }
